@@ -449,11 +449,10 @@ def pristine_main(plan, objname, opname, args, sl=None):
     return ans
 
 
-def twin_main(plan, objname, opname, args):
-    """Runs in a pristine child: derive the (derived, low-level) target by its recipe, flood the Parent cache so that
-    nothing of the derivation is handed out again, rebuild the target BY VALUE through the public constructors, and ask
-    the twin the question.  Returns {"skip": why} when the rebuilt object is not structurally equal to the original."""
-    from inscripta.biocantor.parent.parent import Parent
+def twin_describe_main(plan, objname):
+    """Stage 1, in a pristine child: derive the target by its recipe and describe the VALUES it carries as plain data."""
+    import base64
+    import pickle
 
     it = Interp(plan)
     try:
@@ -463,16 +462,29 @@ def twin_main(plan, objname, opname, args):
     if orig is None:
         return {"skip": "none"}
     before = cjson(orig)
-    for i in range(1100):
-        Parent(id=f"twin-flood-{i}")
     try:
-        twin = build.rebuild_by_value(orig)
+        desc = build.describe_value(orig)
+    except Exception as e:
+        return {"skip": "describe_raises:" + type(e).__name__}
+    if desc == {"k": "EmptyLocation"}:
+        return {"skip": "singleton"}
+    return {"desc": base64.b64encode(pickle.dumps(desc)).decode(), "canon": before}
+
+
+def twin_answer_main(plan, objname, opname, args, desc_b64, canon_orig):
+    """Stage 2, in ANOTHER pristine child (the derivation never ran here, so nothing it may have left in process-wide
+    tables exists): rebuild the object from the description through the public constructors and ask it the question.
+    ``plan`` holds only what the arguments need."""
+    import base64
+    import pickle
+
+    try:
+        twin = build.build_from_description(pickle.loads(base64.b64decode(desc_b64)))
     except Exception as e:
         return {"skip": "rebuild_raises:" + type(e).__name__}
-    if twin is orig:
-        return {"skip": "singleton"}
-    if cjson(twin) != before:
+    if cjson(twin) != canon_orig:
         return {"skip": "not_structurally_equal"}
+    it = Interp(plan)
     it.live[objname] = twin
     _, ans = it.answer(objname, opname, args)
     return {"ans": ans}
